@@ -532,6 +532,79 @@ fn c19_units(tier: Tier) -> Vec<Unit> {
         },
     ));
     units.push(Unit::new(
+        "operands-at-region-edges-and-stack-cycles",
+        1,
+        "instruction level, closed-form pricing, 6 bus-controller settings x code in on-chip RAM / DRAM: pre-decrement stores (B/W/L) whose operand is the first byte / word / long of DRAM, on-chip RAM and the vector area; post-increment loads whose operand is the last one of DRAM and the vector area; RTS, RTE, JSR @ERn, BSR d:8, TRAPA #1, PUSH.L, POP.L with the stack in each region other than the one the code runs in: every cycle is priced at the address it accesses",
+        move |ctx, _| {
+            ctx.cycles_only = true;
+            ctx.closed_form_cost = true;
+            let settings = super::charge::SETTINGS;
+            let set = |c: &mut Case, s: &[u8; 5]| {
+                c.patch(ABWCR, s[0]);
+                c.patch(ASTCR, s[1]);
+                c.patch(WCRH, s[2]);
+                c.patch(WCRL, s[3]);
+                c.patch(DRCRA, s[4]);
+                c.check_cycles = true;
+            };
+            for &pc in &[0xffc000u32, 0x410000] {
+                for s in settings.iter() {
+                    // ---- operands at region edges
+                    for (name, n) in [("MOV.B Rs,@-ERd", 1u32), ("MOV.W Rs,@-ERd", 2), ("MOV.L ERs,@-ERd", 4)] {
+                        let code = ctx.isa.encode(ctx.isa.row(name), &Fields { rs: if n == 1 { 10 } else { 2 }, ra: 1, ..Default::default() });
+                        for start in [0x0040_0000u32, 0x00ff_bf20, 0x0000_0000] {
+                            let mut c = Case::new(pc, &code);
+                            c.er = dom::background_regs();
+                            c.er[1] = start + n;
+                            c.er[7] = 0x00ffe700;
+                            set(&mut c, s);
+                            ctx.run(&c);
+                        }
+                    }
+                    for (name, n) in [("MOV.B @ERs+,Rd", 1u32), ("MOV.W @ERs+,Rd", 2), ("MOV.L @ERs+,ERd", 4)] {
+                        let code = ctx.isa.encode(ctx.isa.row(name), &Fields { rd: if n == 1 { 10 } else { 2 }, ra: 1, ..Default::default() });
+                        for end in [0x0060_0000u32, 0x0000_0100] {
+                            let mut c = Case::new(pc, &code);
+                            c.er = dom::background_regs();
+                            c.er[1] = end - n;
+                            c.er[7] = 0x00ffe700;
+                            set(&mut c, s);
+                            ctx.run(&c);
+                        }
+                    }
+                    // ---- stack cycles: the stack in another region than the code
+                    for &sp in &[0x00ff_e000u32, 0x5a4c_0000, 0x0000_00e0] {
+                        for (name, f, frame) in [
+                            ("RTS", Fields::default(), true),
+                            ("RTE", Fields::default(), true),
+                            ("JSR @ERn", Fields { ra: 3, ..Default::default() }, false),
+                            ("BSR d:8", Fields { data: 0x20, ..Default::default() }, false),
+                            ("TRAPA #x:2", Fields { trap: 1, ..Default::default() }, false),
+                            ("MOV.L ERs,@-ERd", Fields { rs: 2, ra: 7, ..Default::default() }, false),
+                            ("MOV.L @ERs+,ERd", Fields { rd: 2, ra: 7, ..Default::default() }, true),
+                        ] {
+                            let code = ctx.isa.encode(ctx.isa.row(name), &f);
+                            let mut c = Case::new(pc, &code);
+                            c.er = dom::background_regs();
+                            c.er[3] = 0x0041_0600;
+                            c.er[7] = sp;
+                            if frame {
+                                c.patch_l(sp & 0xffffff, 0x2a41_0600);
+                            }
+                            if name == "TRAPA #x:2" {
+                                c.patch_l(9 * 4, 0x00ff_c500);
+                            }
+                            set(&mut c, s);
+                            ctx.run(&c);
+                        }
+                    }
+                }
+            }
+            ctx.cycles_only = false;
+            ctx.closed_form_cost = false;
+        },
+    ));
+    units.push(Unit::new(
         "onchip-ram-and-rejects",
         1,
         "on-chip RAM first/last/middle under 512 setting combinations x 6 kinds x counts 1-5; internal cycles cost 1 whatever the address (addresses >= 2^24 otherwise left open); calc_state (instruction's own address) for I,J,K,N and its error for L,M",
